@@ -5,7 +5,10 @@ from ._famprop import make
 
 def FAMS(tier):
     base = ["T", "D", "R", "O", "K", "C", "V", "M", "U", "G", "CG", "H", "DF", "F", "N", "X"]
-    return base if tier == "quick" else base + ["E", "S"]
+    if tier == "quick":
+        return base
+    # F and N have their deep bounds in C11 / C12 (same programs, stronger oracle there); here they stay at the quick bound
+    return [f + "@quick" if f in ("F", "N") else f for f in base] + ["E", "S"]
 
 
 run, replay = make(
